@@ -244,7 +244,20 @@ package transport
 //@   ensures #the-file-transport-is-built result.1 == nil && fresh(result.0)
 // optT: ghost - the option log when NewTransport starts applying the options to the implementation
 //@ ghost optT []int
+// what the options left in the common arguments (ghost snapshots taken when NewArgs returns): choosing the transport type
+// changes none of them
+//@ ghost argPortT int local
+//@ ghost argHostT string local
+//@ ghost argUserT string local
+//@ ghost argTimeoutT int local
+//@ ghost argReadSizeT int local
 //@ func NewTransport [C19]
+//@   after call NewArgs#1 set argPortT = result.0.Port
+//@   after call NewArgs#1 set argHostT = result.0.Host
+//@   after call NewArgs#1 set argUserT = result.0.User
+//@   after call NewArgs#1 set argTimeoutT = result.0.TimeoutSocket
+//@   after call NewArgs#1 set argReadSizeT = result.0.ReadSize
+//@   loop 1 invariant #choosing-the-transport-type-changes-none-of-the-settings-the-options-made rangeindex == -1 ==> args.Port == argPortT && args.Host == argHostT && args.User == argUserT && args.TimeoutSocket == argTimeoutT && args.ReadSize == argReadSizeT
 //@   at call! NewArgs#1 assert #the-common-arguments-get-the-logger-the-host-and-all-options arg0 == l && arg1 == host && arg2 === options
 //@   at call NewSSHArgs#1 assert #ssh-arguments-only-for-the-ssh-transports (transportType == "system" || transportType == "standard") && arg0 === options
 //@   at call NewTelnetArgs#1 assert #telnet-arguments-only-for-telnet transportType == "telnet" && arg0 === options
